@@ -207,6 +207,12 @@ def ev(e, env):
         if v == ("Err",):
             env.root().returned = ("Err",)
             raise Return(("Err",))
+        # `?` on an Option: None leaves the function with None, Some(x) is x
+        if v == NONE:
+            env.root().returned = NONE
+            raise Return(NONE)
+        if _is_opt(v) and v != TOP and isinstance(v, tuple) and len(v) == 2:
+            return v[1]
         return TOP
     if k == "Expr::MethodCall":
         m = e["method"]["sym"]
